@@ -235,7 +235,7 @@ def ob_api_chains(ob):
     first = ob.params.get('first')
     second = ob.params.get('second')
     small = ob.params.get('small', False)
-    cfgs = ('', 'clean_qq') if small else ('', 'clean_qq', 'qq_depth.1', 'qq_depth_min.3,break_halves', 'clean_qq,qq_depth_max.2')
+    cfgs = ('', 'clean_qq') if small else ('', 'clean_qq', 'qq_depth_min.3,break_halves') if n > 1 else ('', 'clean_qq', 'qq_depth.1', 'qq_depth_min.3,break_halves', 'clean_qq,qq_depth_max.2')
     cases = (0, 1, 2)
     comps2 = ('S', 'W', 'NW', 'SE') if small else A.COMPONENTS
     sp2 = (0, 1, 4, 6, 8) if small else tuple(range(10))
